@@ -70,3 +70,32 @@ Fixpoint comp (n:nat) (b:body) (cnt:nat) : option (list stmt * nat) :=
   | BTrue => Some ([SYieldFalse],cnt)
   | BCut => Some ([SYieldTrue;SReturn],cnt)
   end end.
+
+(* Fuel that suffices (CompileTotal.v: comp_total).  fuel_and a k = fuel for (a, K) when k is
+   enough for K alone; it mirrors the rewrite cases, so it is exponential in the nesting of
+   disjunctions under conjunctions exactly as the compiler's own running time is. *)
+Fixpoint fuel_and (a : body) (k : nat) {struct a} : nat :=
+  match a with
+  | BCall _ _ | BMark _ | BCut | BTrue => S k
+  | BFail => 1
+  | BAnd x y => S (fuel_and x (fuel_and y k))
+  | BOr x y =>
+      match x with
+      | BIf c t => S (S (S (max (fuel_and c (S (fuel_and t k))) (fuel_and y k))))
+      | _ => S (S (max (fuel_and x k) (fuel_and y k)))
+      end
+  | BIf c t => S (S (S (S (max (fuel_and c (S (fuel_and t k))) 1))))
+  | BNot x => S (S (S (S (max (fuel_and x (S 1)) (S k)))))
+  end.
+
+Fixpoint fuel_body (b : body) : nat :=
+  match b with
+  | BAnd a K => fuel_and a (fuel_body K)
+  | BOr x y =>
+      match x with
+      | BIf c t => S (S (max (fuel_and c (S (fuel_body t))) (fuel_body y)))
+      | _ => S (max (fuel_body x) (fuel_body y))
+      end
+  | BTrue | BCut => 1
+  | _ => S (fuel_and b 1)
+  end.
